@@ -239,6 +239,11 @@ def viterbi(ctx):
     fa = E.fa(p)
     S = Sym(E, fa)
     costs = calls_named(fa, "cost")
+    folds = [(b, t) for b, t in fa.calls()
+             if any(strip_generics(x).endswith("Iterator::fold") for x in callee_paths(t))]
+    if not costs and len(folds) == 1:
+        search_min_fold(ctx, crate, E, fa, S, p, folds[0])
+        return
     ctx.ob("VITERBI", "search_min_node|one-cost-call", len(costs) == 1, fn_loc(crate, p),
            "one connection-cost evaluation per predecessor")
     if len(costs) == 1:
@@ -351,6 +356,132 @@ def viterbi(ctx):
                    "the running minimum starts at %s, not at i32::MAX: predecessors whose path cost "
                    "is larger than that are never selected and the node keeps an invalid "
                    "back-pointer" % (inits or "an unrecognised value"))
+
+
+def search_min_fold(ctx, crate, E, fa, S, p, fold):
+    """search_min_node written as `ends[start].iter().enumerate().fold((IDX, MAX), |acc, (i, n)| ..)`:
+    the same obligations, read from the fold call and its closure."""
+    from flow import must_pass
+    fb, ft = fold
+    where = fa.loc(fb)
+    # the closure handed to fold, and what it captures
+    cl = None
+    o = fa.origin(ft["args"][2]) if len(ft["args"]) == 3 else ("?",)
+    if o[0] == "rv" and o[1]["k"] == "agg" and o[1].get("agg") == "closure":
+        cl = o[1]
+    if cl is None or cl["closure"] not in crate.fns:
+        raise EngineError("VITERBI: search_min_node folds with something that is not a local closure")
+    cfa = E.fa(cl["closure"])
+    CS = Sym(E, cfa)
+    caps = [S.operand(x) for x in cl["ops"]]
+    costs = calls_named(cfa, "cost")
+    ctx.ob("VITERBI", "search_min_node|one-cost-call", len(costs) == 1, where,
+           "one connection-cost evaluation per predecessor")
+    if len(costs) != 1:
+        return
+    cb, ct = costs[0]
+    info = iter_index_operand(E, fa, ft["args"][0])
+    okw = bool(info) and info.get("index") is not None and \
+        S.operand(info["index"]) == ("ap", AP(("arg", 2))) and \
+        E.ap_operand(fa, info["base"]) == AP(("arg", 1), ("ends",)) and \
+        set(info["adaptors"]) <= ALLOWED_ADAPTORS
+    ctx.ob("VITERBI", "search_min_node|iterates-whole-list", okw, where,
+           "the minimum is folded over the complete list ends[start_node] (no skip/take/filter/"
+           "rev)" if okw else
+           "search_min_node does not fold over the complete predecessor list ends[start_node] "
+           "(adaptors: %s)" % (info["adaptors"] if info else "unrecognised"))
+    # which element of the item tuple is the node: the one whose right_id is looked up
+    a1 = CS.operand(ct["args"][1])
+    a2 = CS.operand(ct["args"][2])
+    item = a1[1] if a1[0] == "ap" and a1[1].root == ("arg", 3) and a1[1].proj[-1:] == ("right_id",) else None
+    left = None
+    if a2[0] == "ap" and a2[1].root == ("arg", 1) and len(a2[1].proj) == 1 and str(a2[1].proj[0]).startswith("#"):
+        k = int(str(a2[1].proj[0])[1:])
+        left = caps[k] if k < len(caps) else None
+    oka = item is not None and left == ("ap", AP(("arg", 3)))
+    ctx.ob("VITERBI", "search_min_node|cost(pred.right_id,left_id)", oka, cfa.loc(cb),
+           "connection cost is looked up as cost(predecessor.right_id, left_id)" if oka else
+           "connection cost is looked up with (%s, %s)" % (show(a1), show(left) if left else show(a2)))
+    rets = cfa.return_blocks()
+    ok_nc = bool(rets) and all(must_pass(cfa, r, {cb}) for r in rets)
+    ctx.ob("VITERBI", "search_min_node|no-skipped-predecessor", ok_nc, cfa.loc(cb),
+           "every predecessor's connection cost is evaluated (the fold step has no return before "
+           "the cost lookup)" if ok_nc else
+           "some path through the fold step skips the cost evaluation: a predecessor can be "
+           "pruned although its connection makes it the cheapest")
+    ctx.ob("VITERBI", "search_min_node|no-break", True, where,
+           "Iterator::fold ends only when the list is exhausted")
+    # the comparison and the two results
+    upd = None
+    for b in sorted(cfa.live_blocks()):
+        t = cfa.term(b)
+        if t["k"] != "switch":
+            continue
+        e = CS.operand(t["op"])
+        if e[0] == "binop" and e[1] in ("Le", "Lt", "Ge", "Gt") and \
+                any(x[0] == "binop" and x[1] == "Add" for x in (e[2], e[3])):
+            upd = (b, t, e)
+    oku, oki = False, False
+    why = "no comparison of the new path cost with the running minimum found"
+    inits = "an unrecognised value"
+    if upd:
+        b, t, e = upd
+        new_is_left = e[2][0] == "binop" and e[2][1] == "Add"
+        new = e[2] if new_is_left else e[3]
+        old = e[3] if new_is_left else e[2]
+        parts = (new[2], new[3])
+        okparts = any(x[0] == "call" and short(x[1]) == "cost" for x in parts) and \
+            any(x[0] == "ap" and item is not None and x[1] == AP(item.root, item.proj[:-1] + ("min_cost",))
+                for x in parts)
+        f_t, t_t = bool_switch_targets(t)
+        take_true = (e[1] in ("Le", "Lt") and new_is_left) or (e[1] in ("Ge", "Gt") and not new_is_left)
+        tgt, other = (t_t, f_t) if take_true else (f_t, t_t)
+
+        def result(frm, avoid):
+            out = []
+            for bb in sorted(cfa.reachable(frm, avoid={avoid})):
+                for s0 in cfa.blocks[bb]["stmts"]:
+                    if "lhs" in s0 and s0["lhs"]["l"] == 0 and not s0["lhs"]["p"] and \
+                            s0["rv"]["k"] == "agg" and s0["rv"].get("agg") == "tuple":
+                        out.append([CS.operand(x) for x in s0["rv"]["ops"]])
+            return out[0] if len(out) == 1 else None
+        taken, kept = result(tgt, other), result(other, tgt)
+        # the slot of the running minimum in the accumulator
+        j = None
+        if old[0] == "ap" and old[1].root == ("arg", 2) and len(old[1].proj) == 1:
+            j = int(str(old[1].proj[0])[1:])
+        if not okparts:
+            why = "the compared value is %s, not predecessor.min_cost + connection cost" % show(new)
+        elif j is None or taken is None or kept is None or len(taken) != 2 or j > 1:
+            why = "the new cost is compared with %s, and the two results of the step were not " \
+                  "recognised as (index, cost) pairs" % show(old)
+        else:
+            acc = [("ap", AP(("arg", 2), ("#0",))), ("ap", AP(("arg", 2), ("#1",)))]
+            idx = strip_casts(taken[1 - j])
+            ok_idx = idx[0] == "ap" and idx[1].root == ("arg", 3) and len(idx[1].proj) == 1 and \
+                item is not None and idx[1].proj != item.proj[:1]
+            if taken[j] != new:
+                why = "the step that finds a cost not larger than the minimum does not keep that cost"
+            elif not ok_idx:
+                why = "the step that finds a cost not larger than the minimum does not keep the " \
+                      "position of that predecessor (keeps %s)" % show(taken[1 - j])
+            elif kept != acc:
+                why = "the step that finds a larger cost does not pass the accumulator on unchanged"
+            else:
+                oku = True
+            io = fa.origin(ft["args"][1])
+            if io[0] == "rv" and io[1]["k"] == "agg" and len(io[1]["ops"]) == 2:
+                k0 = op_const(io[1]["ops"][j])
+                inits = k0.get("int") if k0 else inits
+                oki = inits == 2147483647
+    ctx.ob("VITERBI", "search_min_node|keeps-minimum", oku, cfa.loc(upd[0]) if upd else where,
+           "the running minimum is replaced exactly when predecessor.min_cost + connection "
+           "cost is not larger" if oku else "minimum selection broken: " + why)
+    ctx.ob("VITERBI", "search_min_node|minimum-starts-at-max", oki, where,
+           "the running minimum starts at i32::MAX" if oki else
+           "the running minimum starts at %s, not at i32::MAX: predecessors whose path cost "
+           "is larger than that are never selected and the node keeps an invalid "
+           "back-pointer" % (inits,))
 
 
 def traceback(ctx):
